@@ -2,6 +2,8 @@
 
 package ratelimit
 
+import "time"
+
 // VerifLimiterKeys lists the keys currently held by the store (under the
 // read lock). Accessor only.
 func VerifLimiterKeys(s *LimiterStore) []uint64 {
@@ -50,3 +52,24 @@ func VerifLimiterSetCookie(s *LimiterStore, key uint64, cookie string) {
 		tl.limiter.cookie.Store(cookie)
 	}
 }
+
+// VerifLimiterLock / VerifLimiterUnlock take and release the store's write
+// lock (exposes the unexported mutex; used to stage concurrent arrivals).
+func VerifLimiterLock(s *LimiterStore) { s.mu.Lock() }
+
+// VerifLimiterUnlock releases what VerifLimiterLock took.
+func VerifLimiterUnlock(s *LimiterStore) { s.mu.Unlock() }
+
+// VerifLimiterAge shifts key's lastSeen back by d (the entry has been idle
+// for d) instead of sleeping. Timestamp shifter only.
+func VerifLimiterAge(s *LimiterStore, key uint64, d time.Duration) {
+	s.mu.RLock()
+	tl, ok := s.limiters[key]
+	s.mu.RUnlock()
+	if ok {
+		tl.lastSeen.Store(tl.lastSeen.Load() - int64(d))
+	}
+}
+
+// VerifLimiterID returns the limiter as an opaque comparable identity.
+func VerifLimiterID(l *limiter) any { return l }
